@@ -371,8 +371,8 @@ func vQueueCase(out *vOut, c int, persistent bool, mk func(out *vOut, capacity i
 	wfr := rnd.IntN(3) == 0
 	reqSized := rnd.IntN(4) == 0
 	// corpus (memory queue), always run first:
-	//  0 head-of-line: one Signal per completion, a producer whose request fits stays blocked until the next completion
-	//  1 after Shutdown: a released producer is refused (errQueueIsStopped) and does not pass the wake-up on
+	//  0 former head-of-line witness: a completion must wake EVERY producer waiting for space (each re-checks its own size)
+	//  1 Shutdown with two producers blocked on overflow: both must be released (refused), nobody stays on the stopped queue
 	var corpus []vQOp
 	if !persistent && c == 0 {
 		capacity, block, wfr = 10, true, false
